@@ -401,7 +401,9 @@ pub fn close32(x: f32, y: f32) -> bool {
     if !x.is_finite() || !y.is_finite() {
         return false;
     }
-    (x - y).abs() <= 1e-6 + 1e-5 * y.abs()
+    // atol 2e-6: an algebraically equal f32 formula (ln N - ln n) is quantised to one ulp of ln N, i.e. 9.5e-7
+    // for N >= 2981 - any f32 evaluation of -ln(n/N) is within this band
+    (x - y).abs() <= 2e-6 + 1e-5 * y.abs()
 }
 
 pub fn kind_fn(k: Kind) -> &'static str {
